@@ -686,6 +686,16 @@ def run(ctx):
         if f.qual.split(".")[0] in keep:
             ctx.add_finding(f.rule.replace("R04", "R08").replace("R03", "R08"), f.file, f.qual, f.construct, f.why, f.line)
     ctx.functions |= {f for f in tmp.functions if f.split(".")[0] in keep}
+    # StoSOO remembers the cell it handed out as a POSITION in its layer (and all three sweep the layers in stored order): nothing
+    # in these classes may reorder or edit the tree's lists (C03's who-may-write rule, re-reported)
+    tmp3 = Ctx(ctx.prop, ctx.tier, ctx.seed, model)
+    c03.check_own(tmp3)
+    for f in tmp3.findings:
+        if f.rule == "R03-OWN" and f.qual.split(".")[0] in keep:
+            ctx.add_finding("R08-ONCE", f.file, f.qual, f.construct, "the layers are edited outside the partition (the handed-out cell is remembered "
+                            "by its position in the layer): %s" % f.why, f.line)
+    ctx.ob("R08-ONCE", not [f for f in tmp3.findings if f.rule == "R03-OWN" and f.qual.split(".")[0] in keep], "PyXAB/algos", "SOO/StoSOO/DOO",
+           "who-may-write scan", "layers and child lists are not edited by these classes", nontrivial=False, finding=False)
     from . import c14
     c14.import_iso(ctx, ["SOO", "SOO_node", "StoSOO", "StoSOO_node", "DOO", "DOO_node"], "R08-ONCE",
                    "evaluation flags, rewards and means are per cell (and per run)")
